@@ -3,6 +3,7 @@ import MitmVerif.Gen.C38
 import MitmVerif.Model.C38_Conv
 import MitmVerif.Model.C38_State
 import MitmVerif.Model.C38_Tuple
+import MitmVerif.Model.C38_Bytes
 import Driver.Proto
 open MitmVerif Driver MitmVerif.C38 MitmVerif.Gen.C38
 
@@ -41,7 +42,7 @@ def c38Step (line : String) : String :=
   | ["convt", a, b, h] =>
     match a.toNat?, b.toNat?, hexOr h with
     | some a, some b, some bs =>
-      match MitmVerif.C36.popTop 64 bs, MitmVerif.C38Conv.convTuple a b with
+      match MitmVerif.C36.popTop 64 bs, (MitmVerif.C38Conv.convTuple a b <|> (if a = 0 then MitmVerif.C38Conv.convBytes b else none)) with
       | .ok (.dict kvs, []), some f =>
         match f kvs with
         | some d' => "ok " ++ showBytes (MitmVerif.C36.dumps (.dict d'))
